@@ -4,7 +4,9 @@
 cd "$(dirname "$0")/.."
 B=${1:-25}
 list=""; for f in selftest/mutants/*.patch; do list="$list $f:$(basename $f | cut -d. -f1)"; done
-for d in seeded/*/; do p=$(python3 -c "import json;print(json.load(open('$d/meta.json'))['property'])"); list="$list $d/patch.diff:$p"; done
+for d in seeded/*/; do
+  [ "$(python3 -c "import json;print(json.load(open('$d/meta.json')).get('expect','caught'))")" = missed ] && continue
+  p=$(python3 -c "import json;print(json.load(open('$d/meta.json'))['property'])"); list="$list $d/patch.diff:$p"; done
 for item in $list; do
   patch=$(readlink -f ${item%%:*}); prop=${item##*:}
   D=$(mktemp -d); rsync -a --exclude .git /repo/ $D/repo/
